@@ -33,7 +33,10 @@ def _snapshot(g, T=int):
     return {"w": sorted([int(u), int(v), T(g.edges[u, v]["weight"])] for u, v in g.edges),
             "cp_nodes": [int(x) for x in g.critical_path_nodes],
             "cp_events": sorted(int(x) for x in g.critical_path_events_set),
-            "cp_pairs": sorted([int(e.begin), int(e.end)] for e in g.critical_path_edges_set)}
+            "cp_pairs": sorted([int(e.begin), int(e.end)] for e in g.critical_path_edges_set),
+            # the members of the reported edge set are the graph's own edges (not look-alikes joining the same nodes)
+            "foreign_edges": sorted([int(e.begin), int(e.end)] for e in g.critical_path_edges_set
+                                    if not g.has_edge(e.begin, e.end) or g.edges[e.begin, e.end]["object"] != e)}
 
 
 def run_impl(case, d):
@@ -53,7 +56,9 @@ def run_impl(case, d):
 
 
 def _run_impl(case, d):
-    res, ta, g = cp.run_cp(case, d, zero_weight_env=False)
+    # the zero-weight launch edges (CRITICAL_PATH_ADD_ZERO_WEIGHT_LAUNCH_EDGE) are switched on in about a third of the cases: the reported
+    # path is a maximum-weight path of the graph that is handed back, whatever edges the options add to it
+    res, ta, g = cp.run_cp(case, d, zero_weight_env=case["params"]["zw"])
     if g is None or "graph" not in res:
         return res
     res["order"] = pC08.topo_order(res["graph"])
@@ -136,6 +141,8 @@ def compare(case, impl, model):
             continue
         if s.get("weights_changed"):
             disc.append(f"{which}: critical_path() altered the weights it was given (u, v, given, afterwards): {s['weights_changed']} {w}")
+        if s.get("foreign_edges"):
+            disc.append(f"{which}: critical_path_edges_set holds objects that are not the graph's edges (begin, end): {s['foreign_edges'][:6]} {w}")
         if k > 0 and not s.get("ok", True):
             disc.append(f"{which}: critical_path() returned False")
         for j, (ok, what) in enumerate(zip(m, CHECKS)):
